@@ -54,6 +54,8 @@ def check(ctx):
     from .c13 import config_separators       # a valid configuration is never rejected
     ctx.attempt(config_separators, rule='EXC')
     ctx.attempt(common.total_lookups, _parser_funcs(ctx))
+    ctx.attempt(common.optional_number_ordering, _parser_funcs(ctx))
+    ctx.attempt(common.empty_reductions, _parser_funcs(ctx))
     from .c05 import every_match_registers
     ctx.attempt(every_match_registers)
     from .c13 import decompiled_text_is_typed
